@@ -17,8 +17,8 @@ PLAN = dict(
                 "single condition is exercised alone, with an enumerated grid for the small axes."),
     level_note=NOTE_BASE,
     runs=[
-        dict(name="grid", run="^(TestGrid|TestCorpus)$", timeout=(300, 900)),
-        dict(name="policy", run="^TestPropPolicy$", checks=(4000, 100000), shards=(1, 8), timeout=(300, 1800)),
+        dict(name="grid", run="^(TestGrid|TestCorpus)$", timeout=(300, 3600)),
+        dict(name="policy", run="^TestPropPolicy$", checks=(4000, 500000), shards=(1, 16), timeout=(300, 3600)),
     ],
     require=[("policy", "expect-accept"), ("policy", "expect-reject-1-faults"), ("policy", "expect-reject-2-faults")],
 )
